@@ -297,7 +297,10 @@ def gen_grammar_case(rng, kind, tier):
     c = {"kind": kind, "dsl": name, "request": req, "depth": depth,
          "weights": rng.choice(["uniform", "random", "random", "dyadic"]), "wseed": rng.randint(1, 10 ** 6),
          "seed": rng.randint(1, 2 ** 31 - 1), "dseed": rng.randint(0, 10 ** 9), "ncalls": rng.randint(3, 12),
-         "backend": rng.choice(["native", "python"]), "copy": rng.random() < 0.5}
+         "backend": rng.choice(["native", "python"]), "copy": rng.random() < 0.5,
+         # order in which the caller's probability table lists the rules of a non-terminal (a user-made table or the
+         # neural predictor's primitives-then-variables order need not follow cfg.rules)
+         "tag_order": rng.choice(["rules", "rules", "reversed", "shuffled"])}
     if kind == "gu":
         c["ucfg"] = rng.choice(["from_cfg", "dfta", "dfta"])
         if c["ucfg"] == "dfta":
@@ -908,6 +911,17 @@ def check_gdet(case, M):
     else:
         wl = assign_weights(case, [len(cfg.rules[S]) for S in cfg.rules])
         pg = ProbDetGrammar(cfg, {S: {P: w for P, w in zip(cfg.rules[S], wl[i])} for i, S in enumerate(cfg.rules)})
+    if case.get("tag_order", "rules") != "rules":
+        ro = random.Random(case["wseed"] + 1)
+        tags2 = {}
+        for S in pg.tags:
+            items = list(pg.tags[S].items())
+            if case["tag_order"] == "reversed":
+                items.reverse()
+            else:
+                ro.shuffle(items)
+            tags2[S] = dict(items)
+        pg = ProbDetGrammar(cfg, tags2)
     if case.get("copy"):
         pg = copy.deepcopy(pg)
     # ---- extraction (ids in the iteration order of pg.tags)
@@ -1026,10 +1040,11 @@ def check_gdet(case, M):
                 break
         stat = {"N": N, "chi2": round(chi, 1), "df": df, "p": pv}
     apps = sum(1 for t in i_trees if t and len(t) > 1)
-    tags = ["gdet", f"gdet.dsl.{case['dsl']}", f"gdet.weights.{case['weights']}", f"gdet.depth{case['depth']}", f"gdet.nts{min(len(nts), 12)}"]
+    tags = ["gdet", f"gdet.dsl.{case['dsl']}", f"gdet.weights.{case['weights']}", f"gdet.depth{case['depth']}", f"gdet.nts{min(len(nts), 12)}",
+            f"gdet.tag_order.{case.get('tag_order', 'rules')}"]
     if stat:
         tags.append(f"gdet.stat.{case['backend']}")
-    return result(case, json.dumps(["gdet", case["dsl"], case["request"], case["depth"], case["weights"], case["wseed"], case["dseed"], case["seed"], case["backend"]]),
+    return result(case, json.dumps(["gdet", case["dsl"], case["request"], case["depth"], case["weights"], case["wseed"], case["dseed"], case["seed"], case["backend"], case.get("tag_order", "rules")]),
                   nprog >= 3 and apps >= 1, tags, failures,
                   {"dsl": case["dsl"], "request": case["request"], "depth": case["depth"], "programs": nprog, "scripted": [str(p) for p in impl_seq[:4]], "stat": stat})
 
@@ -1200,7 +1215,7 @@ def check_gu(case, M):
     tags = ["gu", f"gu.{case.get('ucfg')}", "gu.deepcopied" if case.get("copy") else "gu.as-built", f"gu.starts{min(len(starts_order), 4)}", f"gu.maxalts{min(maxalts, 4)}", f"gu.weights.{case['weights']}"]
     if stat:
         tags.append(f"gu.stat.{case['backend']}")
-    return result(case, json.dumps(["gu", case["dsl"], case["request"], case["depth"], case.get("ucfg"), case.get("constraint"), case["weights"], case["wseed"], case["dseed"], case["seed"], case["backend"]]),
+    return result(case, json.dumps(["gu", case["dsl"], case["request"], case["depth"], case.get("ucfg"), case.get("constraint"), case["weights"], case["wseed"], case["dseed"], case["seed"], case["backend"], case.get("tag_order", "rules")]),
                   nprog >= 3 and apps >= 1, tags, failures,
                   {"dsl": case["dsl"], "request": case["request"], "depth": case["depth"], "ucfg": case.get("ucfg"), "constraint": case.get("constraint"),
                    "programs": nprog, "scripted": [str(p) for p in impl_seq[:4]], "stat": stat})
